@@ -472,9 +472,13 @@ func c08mCase(t *testing.T, tr *vw.Trace, root *vw.Rng, ci int, class int) {
 	}
 	for ep := 0; ep < episodes; ep++ {
 		sound := e.raw()
-		if r.Chance(3, 5) {
+		forceLast := class != 0 && ci%2 == 0 // multi-block tracts: every other case alters a block that is not the first
+		if forceLast || r.Chance(3, 5) {
 			// one burst of <= 32 bits inside block k (data, checksum or the seam)
 			k := int64(r.Intn(int(nb)))
+			if forceLast {
+				k = nb - 1
+			}
 			rl := size - k*c08mDL
 			if rl > c08mDL {
 				rl = c08mDL
